@@ -7,7 +7,7 @@ use num::{Signed, ToPrimitive};
 
 pub struct C01;
 
-const SMALL: [&str; 15] = ["0", "1", "2", "3", "7", "10", "-3", "-0.5", "0.5", ".25", "1.5e1", "2e-1", "1e2", "50%", "12.5%"];
+const SMALL: [&str; 18] = ["0", "1", "2", "3", "7", "10", "-3", "-0.5", "0.5", ".25", "1.5e1", "2e-1", "1e2", "50%", "12.5%", "1.25e1", "12.345e2", "-2.5e-1%"];
 
 fn big_ladder() -> Vec<String> {
     vec![
